@@ -9,7 +9,8 @@ EXTENDS Text, TLC
 
 CONSTANTS Sep, MaxRows,
           Headers,        \* the column orders a file may use: sequences of column names (byte strings), incl. names that are not fields
-          WithComment     \* a comment line before the header
+          WithComment,    \* a comment line before the header
+          WithHeader      \* FALSE: the file has no header line; its columns are the fields of the type, in their order
 
 \* the table type: name (text), count (integer), score (decimal number with one fraction digit, kept as text tenths)
 FName == <<110, 97, 109, 101>>          \* "name"
@@ -23,7 +24,7 @@ ExtraVal == <<122, 122>>                        \* what a column that is not a f
 
 VARIABLES header, rows
 vars == <<header, rows>>
-Init == header \in Headers /\ rows = <<>>
+Init == header \in (IF WithHeader THEN Headers ELSE {Fields}) /\ rows = <<>>
 AddRow(r) == Len(rows) < MaxRows /\ rows' = Append(rows, r) /\ UNCHANGED header
 Next == \E n \in NameVals : \E c \in CountVals : \E s \in ScoreVals : AddRow([name |-> n, count |-> c, score |-> s])
 Spec == Init /\ [][Next]_vars
@@ -31,16 +32,18 @@ Spec == Init /\ [][Next]_vars
 Cell(r, col) == IF col = FName THEN r.name ELSE IF col = FCount THEN IntText(r.count) ELSE IF col = FScore THEN r.score ELSE ExtraVal
 LineOf(r, cols) == JoinWith([k \in DOMAIN cols |-> Cell(r, cols[k])], Sep) \o <<LF>>
 Comment == IF WithComment THEN <<HASH, 120, LF>> ELSE <<>>
-FileText == Comment \o JoinWith(header, Sep) \o <<LF>> \o Concat([i \in DOMAIN rows |-> LineOf(rows[i], header)])
+HeaderLine(cols) == IF WithHeader THEN JoinWith(cols, Sep) \o <<LF>> ELSE <<>>
+FileText == Comment \o HeaderLine(header) \o Concat([i \in DOMAIN rows |-> LineOf(rows[i], header)])
 \* what writing the table (as a table of its own type) gives: the fields in the order of the type, nothing else
-CanonText == JoinWith(Fields, Sep) \o <<LF>> \o Concat([i \in DOMAIN rows |-> LineOf(rows[i], Fields)])
+CanonText == HeaderLine(Fields) \o Concat([i \in DOMAIN rows |-> LineOf(rows[i], Fields)])
 
 \* meaning of the text: the cells under the header cell that equals the field's name
 ColumnOf(text, field) ==
   LET ls == SelectSeq(Lines(text), LAMBDA l : l = <<>> \/ l[1] # HASH)
-      hdr == SplitOn(ls[1], Sep)
+      hdr == IF WithHeader THEN SplitOn(ls[1], Sep) ELSE Fields
       k == CHOOSE k \in DOMAIN hdr : hdr[k] = field
-  IN [i \in 1..(Len(ls) - 1) |-> SplitOn(ls[i + 1], Sep)[k]]
+      skip == IF WithHeader THEN 1 ELSE 0
+  IN [i \in 1..(Len(ls) - skip) |-> SplitOn(ls[i + skip], Sep)[k]]
 ByName == /\ ColumnOf(FileText, FName) = [i \in DOMAIN rows |-> rows[i].name]
           /\ ColumnOf(FileText, FCount) = [i \in DOMAIN rows |-> IntText(rows[i].count)]
           /\ ColumnOf(FileText, FScore) = [i \in DOMAIN rows |-> rows[i].score]
